@@ -184,7 +184,7 @@ def RRGood (rr : RR) : Prop :=
   (rr.type = typePTR → NameBufOk rr.rdata ∧ rr.rdlength ≤ nameBufSz) ∧
   (rr.type ≠ typePTR → rr.rdata.length = rr.rdlength)
 
-def RRSafe (buf : Bytes) (off : Nat) : R (RR × Nat) → Prop
+def RRSafe (buf : Bytes) : R (RR × Nat) → Prop
   | .ok (rr, off') => off' ≤ buf.length ∧ RRGood rr
   | .err => True
   | .oob => False
@@ -199,7 +199,7 @@ theorem rd16_lt {buf : Bytes} {off s : Nat} (h : rd16 buf off = some s) : s < 65
     simp at h; omega
   · simp at h
 
-theorem rrUnpack_safe (buf : Bytes) (off : Nat) : RRSafe buf off (rrUnpack buf off) := by
+theorem rrUnpack_safe (buf : Bytes) (off : Nat) : RRSafe buf (rrUnpack buf off) := by
   unfold rrUnpack
   have := nameUnpack_safe buf off nameBufSz nameBufSz_pos
   revert this
@@ -246,7 +246,7 @@ theorem rrUnpack_safe (buf : Bytes) (off : Nat) : RRSafe buf off (rrUnpack buf o
           | fuel => simp [NameSafe]
         · have hle : r.off + 10 + rdl ≤ buf.length := by omega
           simp only [hp, ↓reduceIte]
-          rw [if_neg htr, if_pos hle]
+          rw [if_pos hle]
           simp only [RRSafe, RRGood, NameBufOk]
           refine ⟨hle, ⟨h2, h5⟩, hrdl16, ?_, ?_⟩
           · intro h; exact absurd h hp
@@ -255,5 +255,98 @@ theorem rrUnpack_safe (buf : Bytes) (off : Nat) : RRSafe buf off (rrUnpack buf o
   | oob => simp [NameSafe]
   | abort => simp [NameSafe]
   | fuel => simp [NameSafe]
+
+theorem rrLoop_safe (buf : Bytes) : ∀ (n off : Nat),
+    ∃ l, rrLoop buf n off = .ok l ∧ l.length ≤ n ∧ ∀ rr ∈ l, RRGood rr := by
+  intro n
+  induction n with
+  | zero => intro off; exact ⟨[], by simp [rrLoop]⟩
+  | succ n ih =>
+    intro off
+    rw [rrLoop]
+    by_cases hoff : off ≥ buf.length
+    · exact ⟨[], by simp [hoff]⟩
+    · simp only [hoff, ↓reduceIte]
+      have := rrUnpack_safe buf off
+      revert this
+      cases rrUnpack buf off with
+      | ok p =>
+        obtain ⟨rr, off'⟩ := p
+        simp only [RRSafe]
+        intro ⟨_, hg⟩
+        obtain ⟨l, hl, hlen, hall⟩ := ih off'
+        refine ⟨rr :: l, by simp [hl], by simp; omega, ?_⟩
+        intro x hx
+        rcases List.mem_cons.mp hx with rfl | hx
+        · exact hg
+        · exact hall x hx
+      | err => intro _; exact ⟨[], by simp⟩
+      | oob => simp [RRSafe]
+      | abort => simp [RRSafe]
+      | fuel => simp [RRSafe]
+
+/-- What rfc1035MessageUnpack may do: return `-rfc1035_unpack_error` and no message; or a message whose name buffers
+are NUL-terminated inside their 256 bytes, with `-rcode` and no records, or with the number of records unpacked
+(at most ANCOUNT; zero only when ANCOUNT is zero). Nothing else: no out-of-bounds access, no failed assert, no
+exhausted budget. -/
+def OutSafe : Out → Prop
+  | .ret code none => code = -(unpackError : Int)
+  | .ret code (some m) =>
+    NameBufOk m.query.name ∧ (∀ rr ∈ m.answers, RRGood rr) ∧ m.answers.length ≤ m.hdr.ancount ∧ m.hdr.qdcount = 1 ∧
+    ((m.hdr.rcode ≠ 0 ∧ code = -(m.hdr.rcode : Int) ∧ m.answers = []) ∨
+     (m.hdr.rcode = 0 ∧ code = (m.answers.length : Int) ∧ (m.answers = [] → m.hdr.ancount = 0)))
+  | .oob => False
+  | .abort => False
+  | .fuel => False
+
+theorem headerUnpack_safe (buf : Bytes) :
+    headerUnpack buf = .err ∨ ∃ h, headerUnpack buf = .ok h := by
+  unfold headerUnpack
+  by_cases hsz : buf.length < headerSz
+  · simp [hsz]
+  · have e := headerSz_eq
+    obtain ⟨a, ha⟩ := rd16_some (buf := buf) (off := 0) (by omega)
+    obtain ⟨b, hb⟩ := rd16_some (buf := buf) (off := 2) (by omega)
+    obtain ⟨c, hc⟩ := rd16_some (buf := buf) (off := 4) (by omega)
+    obtain ⟨d, hd⟩ := rd16_some (buf := buf) (off := 6) (by omega)
+    obtain ⟨f, hf⟩ := rd16_some (buf := buf) (off := 8) (by omega)
+    obtain ⟨g, hg⟩ := rd16_some (buf := buf) (off := 10) (by omega)
+    simp [hsz, ha, hb, hc, hd, hf, hg]
+
+theorem messageUnpack_safe (buf : Bytes) : OutSafe (messageUnpack buf) := by
+  unfold messageUnpack
+  rcases headerUnpack_safe buf with he | ⟨h, he⟩
+  · simp [he, OutSafe]
+  · simp only [he]
+    by_cases hqd : h.qdcount ≠ 1
+    · simp [hqd, OutSafe]
+    · simp only [hqd, ↓reduceIte]
+      have hqd1 : h.qdcount = 1 := by simpa using hqd
+      have := queryUnpack_safe buf 12
+      revert this
+      cases queryUnpack buf 12 with
+      | ok p =>
+        obtain ⟨q, off⟩ := p
+        simp only [QSafe]
+        intro ⟨_, hq⟩
+        by_cases hrc : h.rcode ≠ 0
+        · rw [if_pos hrc]
+          exact ⟨hq, by simp, by simp, hqd1, Or.inl ⟨hrc, rfl, rfl⟩⟩
+        · rw [if_neg hrc]
+          have hrc0 : h.rcode = 0 := by simpa using hrc
+          by_cases han : h.ancount = 0
+          · rw [if_pos han]
+            exact ⟨hq, by simp, by simp, hqd1, Or.inr ⟨hrc0, rfl, fun _ => han⟩⟩
+          · rw [if_neg han]
+            obtain ⟨l, hl, hlen, hall⟩ := rrLoop_safe buf h.ancount off
+            rw [hl]
+            cases l with
+            | nil => simp [OutSafe]
+            | cons rr l =>
+              exact ⟨hq, hall, hlen, hqd1, Or.inr ⟨hrc0, rfl, by simp⟩⟩
+      | err => simp [OutSafe]
+      | oob => simp [QSafe]
+      | abort => simp [QSafe]
+      | fuel => simp [QSafe]
 
 end SquidModel.Dns
